@@ -189,6 +189,7 @@ TWBlocked == Is("WBlocked") /\ Adv /\ Keep /\ DrvOpBegin
    same kind, and an AbandonRequest must name the ID the caller gave *)
 AppOfKind(k) == CASE k = "single" -> {0, 10, 14} [] k = "search" -> {3} [] k = "abandon" -> {16} [] k = "unbind" -> {2} [] OTHER -> {}
 TSrvGot == /\ Is("SrvGot") /\ Adv /\ UNCHANGED <<vars, pend, dead, started>> /\ seen' = seen \cup {E.id}
+           /\ Chk(E.id >= 1 /\ E.id <= MaxId, "wire:id-range")        \* C05: what leaves the client carries an ID in 1..2^31-1
            /\ Chk(\E r \in c2s : r.id = E.id /\ E.app \in AppOfKind(r.kind), "wire")
            /\ Chk(E.app # 16 \/ \E r \in c2s : r.id = E.id /\ r.tg = E.tg, "wire:abandon")
 TTick == Is("Tick") /\ Adv /\ Keep /\ Chk(~TimerDue, "time") /\ TickCore /\ now' = E.now
